@@ -78,14 +78,14 @@ def gate11(draw, width, symbolic=False, measure=True):
 
 
 @st.composite
-def circ11(draw, max_width=5, max_gates=8):
+def circ11(draw, max_width=5, max_gates=8, allow_fixed=True):
     width = draw(st.integers(1, max_width))
     symbolic = draw(st.integers(0, 4)) == 0
     measure = draw(st.integers(0, 2)) == 0
     gates = draw(st.lists(gate11(width, symbolic, measure), min_size=0, max_size=max_gates))
     used = 1 + max([max(gq(g)) for g in gates], default=-1)
     k = draw(st.integers(0, 5))
-    nq = None if k <= 2 else (0 if k == 3 else draw(st.integers(max(used, 1), max(used, 1) + 2)))
+    nq = None if (k <= 2 or (k > 3 and not allow_fixed)) else (0 if k == 3 else draw(st.integers(max(used, 1), max(used, 1) + 2)))
     return {"gates": gates, "nq": nq}
 
 
@@ -94,8 +94,11 @@ THR = st.sampled_from([0, 1e-6, 1e-3, 0.1, 1.0])
 FORM = st.sampled_from(["fn", "method"])
 
 
-def op11(max_width=5):
+def op11(max_width=5, formats=None, backends=None):
     fd = st.fixed_dictionaries
+    formats = formats or FORMATS
+    main_formats = [f for f in ("cirq", "sympy", "qdk") if f in formats] or formats
+    backends = backends or ["cirq", "cirq", "cirq", "sympy"]
     return st.one_of(
         fd({"op": st.just("add_gate"), "i": IDX, "g": gate11(max_width, symbolic=True)}),
         fd({"op": st.just("add_gate"), "i": IDX, "g": gate11(max_width)}),
@@ -114,18 +117,18 @@ def op11(max_width=5):
         fd({"op": st.just("simplify"), "i": IDX, "form": FORM, "thr": THR, "rq": st.booleans()}),
         fd({"op": st.just("depth"), "i": IDX}),
         fd({"op": st.just("show"), "i": IDX}),
-        fd({"op": st.just("translate"), "i": IDX, "fmt": st.sampled_from(FORMATS)}),
-        fd({"op": st.just("translate"), "i": IDX, "fmt": st.sampled_from(["cirq", "sympy", "qdk"])}),
-        fd({"op": st.just("simulate"), "i": IDX, "backend": st.sampled_from(["cirq", "cirq", "cirq", "sympy"])}),
+        fd({"op": st.just("translate"), "i": IDX, "fmt": st.sampled_from(formats)}),
+        fd({"op": st.just("translate"), "i": IDX, "fmt": st.sampled_from(main_formats)}),
+        fd({"op": st.just("simulate"), "i": IDX, "backend": st.sampled_from(backends)}),
         fd({"op": st.just("set_param"), "i": IDX, "k": st.integers(0, 5), "val": st.one_of(st.floats(-7, 7, allow_nan=False), st.just("beta"))}),
     )
 
 
 @st.composite
-def histories(draw, max_ops):
-    pool = draw(st.lists(circ11(), min_size=1, max_size=3))
+def histories(draw, max_ops, formats=None, backends=None, allow_fixed=True):
+    pool = draw(st.lists(circ11(allow_fixed=allow_fixed), min_size=1, max_size=3))
     n_ops = draw(st.integers(4, max_ops))        # drawn explicitly: plain st.lists is heavily biased towards short lists
-    ops = draw(st.lists(op11(), min_size=n_ops, max_size=n_ops))
+    ops = draw(st.lists(op11(formats=formats, backends=backends), min_size=n_ops, max_size=n_ops))
     return {"pool": pool, "ops": ops}
 
 
@@ -569,10 +572,40 @@ def run_history(case, ctx):
     return nontrivial, labels
 
 
-@part("history", quick=1200, thorough=40000)
+def _all_gates(case):
+    return [g for x in case["pool"] for g in x["gates"]] + [o["g"] for o in case["ops"] if o["op"] == "add_gate"]
+
+
+def _uses(case, fmt):
+    return any((o["op"] == "translate" and o["fmt"] == fmt) or (o["op"] == "simulate" and o["backend"] == fmt) for o in case["ops"])
+
+
+def _mc_cnot(case):
+    return any(g["n"] == "CNOT" and g["c"] and len(g["c"]) > 1 for g in _all_gates(case))
+
+
+# predicates used only when the corresponding signature is listed as an open known finding (search continues behind it)
+EXCLUSIONS = {
+    "add_gate_out_of_range:operand:gates-changed": lambda case: any(x["nq"] for x in case["pool"]),
+    "translate_cirq:operand:gates-changed": lambda case: _mc_cnot(case) and _uses(case, "cirq"),
+    "simulate_cirq:operand:gates-changed": lambda case: _mc_cnot(case) and _uses(case, "cirq"),
+    "translate_qdk:operand:gates-changed": lambda case: _mc_cnot(case) and _uses(case, "qdk"),
+    "translate_sympy:operand:gates-changed": lambda case: any(isinstance(g["p"], str) for g in _all_gates(case)) and _uses(case, "sympy"),
+    "simulate_sympy:operand:gates-changed": lambda case: any(isinstance(g["p"], str) for g in _all_gates(case)) and _uses(case, "sympy"),
+    "merge_fn:operand:gates-changed": lambda case: any(o["op"] in ("merge", "simplify") for o in case["ops"]),
+}
+
+
+@part("history", quick=1200, thorough=300000)
 def history_part(ctx):
     max_ops = 25 if ctx.tier == "quick" else 40
-    ctx.search("history", histories(max_ops), lambda case: run_history(case, ctx))
+    body = lambda case: run_history(case, ctx)
+    ctx.search("history", histories(max_ops), body, frac=0.6, exclusions=EXCLUSIONS)
+    # two narrower mixes (no fixed width, one family of writers each), so that a defect on one path cannot hide the others
+    ctx.search("history_sympy", histories(max_ops, formats=["sympy", "ionq", "projectq"], backends=["sympy"], allow_fixed=False),
+               body, frac=0.2, exclusions=EXCLUSIONS)
+    ctx.search("history_qdk", histories(max_ops, formats=["qdk", "ionq", "projectq"], backends=["sympy"], allow_fixed=False),
+               body, frac=0.2, exclusions=EXCLUSIONS)
 
 
 # ------------------------------------------------------------------------------------------------ index validation
@@ -617,7 +650,7 @@ def bad_gates(draw):
             "kind": kind, "via": draw(st.sampled_from(["Gate", "Gate-ndarray", "add_gate-mutated"]))}
 
 
-@part("validation", quick=1600, thorough=40000)
+@part("validation", quick=1600, thorough=100000)
 def validation_part(ctx):
     from tangelo.linq import Gate, Circuit
 
